@@ -305,8 +305,8 @@ func firstLine(s string) string {
 	if i := strings.IndexByte(s, '\n'); i >= 0 {
 		s = s[:i]
 	}
-	if len(s) > 400 {
-		s = s[:400] + "…"
+	if len(s) > 600 {
+		s = s[:600] + "…"
 	}
 	return s
 }
